@@ -3,6 +3,7 @@ package streamsim
 import (
 	"fmt"
 	"math"
+	"strconv"
 
 	"go.opentelemetry.io/collector/pdata/pcommon"
 	"go.opentelemetry.io/collector/pdata/plog"
@@ -34,6 +35,9 @@ type G struct {
 	// Wide makes a batch of many resources and scopes with one item each (so
 	// that the dictionaries of resource / scope level columns grow).
 	Wide bool
+	// Long: the next list or map value generated gets more than 131,072
+	// elements (once per batch).
+	Long bool
 	// Bare forbids attributes, events, links and exemplars altogether, so that
 	// the main record has no id column and no related record exists.
 	Bare bool
@@ -44,10 +48,10 @@ type G struct {
 	Items int
 }
 
-func (g *G) d(n int) int                  { return g.t.Draw(core.Gen, n) }
-func (g *G) w(ws ...int) int              { return g.t.Weighted(core.Gen, ws...) }
-func (g *G) p(num, den int) bool          { return g.t.Chance(core.Gen, num, den) }
-func pick[T any](g *G, xs []T) T          { return xs[g.d(len(xs))] }
+func (g *G) d(n int) int         { return g.t.Draw(core.Gen, n) }
+func (g *G) w(ws ...int) int     { return g.t.Weighted(core.Gen, ws...) }
+func (g *G) p(num, den int) bool { return g.t.Chance(core.Gen, num, den) }
+func pick[T any](g *G, xs []T) T { return xs[g.d(len(xs))] }
 func (g *G) uniq() (string, bool) {
 	if g.Uniq != nil && g.t.Chance(core.Gen, g.UniqPct, 100) {
 		*g.Uniq++
@@ -117,12 +121,31 @@ func (g *G) value(v pcommon.Value, depth int) {
 		// unset
 	case 6:
 		sl := v.SetEmptySlice()
+		if g.Long {
+			// one very long flat list per batch (the domain bounds nesting, not length)
+			g.Long = false
+			n := 131073 + g.d(3)
+			sl.EnsureCapacity(n)
+			for i := 0; i < n; i++ {
+				sl.AppendEmpty().SetInt(int64(i % 7))
+			}
+			return
+		}
 		n := g.w(1, 3, 2, 1)
 		for i := 0; i < n; i++ {
 			g.value(sl.AppendEmpty(), depth-1)
 		}
 	case 7:
 		m := v.SetEmptyMap()
+		if g.Long {
+			g.Long = false
+			n := 131073 + g.d(3)
+			m.EnsureCapacity(n)
+			for i := 0; i < n; i++ {
+				m.PutBool("k"+strconv.Itoa(i), i%3 == 0)
+			}
+			return
+		}
 		n := g.w(1, 3, 2, 1)
 		for i := 0; i < n; i++ {
 			g.value(m.PutEmpty(g.key()), depth-1)
